@@ -334,7 +334,9 @@ def generate(rng, idx, tier, variant):
         while prog['lags'] + prog['leads'] + 1 > n:
             n += 1
         spec['span']['n'] = n
-        spec['model'] = {'kind': 'parser', 'script': prog['script'], 'names': prog['names'], 'init': scripts.gen_data(rng, prog, n), 'lags': prog['lags'], 'leads': prog['leads']}
+        spec['model'] = {'kind': 'parser', 'script': prog['script'], 'names': prog['names'], 'endo': prog['endo'], 'declared': prog['declared'], 'init': scripts.gen_data(rng, prog, n), 'lags': prog['lags'], 'leads': prog['leads']}
+        if rng.random() < 0.25:
+            spec['model']['build'] = {'with_type_hints': False}
         g['names'][0] = [(nm, 'float') for nm in prog['names']]
     if fam in ('scripted', 'parser', 'alias', 'tracer', 'alias+tracer') and variant == 'copies' and rng.random() < 0.3:
         spec['dtype'] = rng.choice(['int', 'float32', 'bool'])  # the model's own dtype= argument
@@ -613,14 +615,16 @@ class Party:
         return len(self.labels)
 
 
-def build_first(fsic, spec):
+def build_first(fsic, spec, ctx=None):
     fam = spec['family']
     span = spans.make_span(spec['span'])
     if fam == 'vc':
         return fsic.core.VectorContainer(span, strict=spec['strict']), span
     dtk = {} if not spec.get('dtype') else {'dtype': {'int': int, 'float32': np.float32, 'bool': bool}[spec['dtype']]}
     if fam == 'parser':
-        cls = fsic.build_model(fsic.parse_model(spec['model']['script']))
+        cls = probes.build_parser_class(fsic, spec['model'], ctx)
+        if cls is None:
+            raise S.BuildFailed()
         m = cls(span, strict=spec['strict'], **dtk)
         for nm, vals in spec['model']['init'].items():
             if nm in m.__dict__['index']:
@@ -905,7 +909,11 @@ def _rel(parties, i, j):
 def execute(schedule, ctx):
     fsic = import_fsic()
     spec = schedule['spec']
-    x0, span0 = build_first(fsic, spec)
+    try:
+        x0, span0 = build_first(fsic, spec, ctx)
+    except S.BuildFailed:
+        ctx.log('build-failed')
+        return
     labels0 = spans.elements(span0)
     _st = spec['span'].get('step', 2) if spec['span']['type'] == 'range_step' else 1
     universe_spec = dict(spec['span'], n=spec['span']['n'] + 6, origin=spec['span'].get('origin', 0) - 3 * _st) if spec['span']['type'] not in ('list_mixed',) else None
